@@ -193,7 +193,7 @@ func ruleDeletedStoresHidden(e *Engine, r *Reporter) {
 // ---- C15/C12: batch loops cover every item -----------------------------------------------------
 
 func ruleBatchStride(e *Engine, r *Reporter) {
-	r.Rule("batch-window-equals-stride", "in the write path's batching loops (for start := 0; start < n; start += K) the window end is start+K with the same K: a smaller window silently drops items (tuples without changelog rows, or the reverse), a larger one writes items twice", 8)
+	r.Rule("batch-window-equals-stride", "in the write path's batching loops (for start := 0; start < n; start += K) the window end is start+K with the same K: a smaller window silently drops items (tuples without changelog rows, or the reverse), a larger one writes items twice", 5)
 	for _, fn := range e.Fns {
 		if !sqlPkgs[pkgOf(fn)] {
 			continue
